@@ -355,3 +355,32 @@ Qed.
 
 Theorem emit_float_rust_one_token d m e t : emit_float_rust m e = Some t -> sql_lex d t = [TNumber t].
 Proof. unfold emit_float_rust. destruct (overflows m e); [discriminate|]. intro H. injection H as <-. apply emit_float_one_token. Qed.
+
+(* ------------------------------------------------------------------ negative floats: {:?} prints a minus sign in front *)
+
+Lemma emit_float_norm_head m e : exists c w, emit_float_norm m e = c :: w /\ is_digit c = true.
+Proof.
+  unfold emit_float_norm. destruct (digits_of_cons m) as (c & w & E & Hc & Hw). rewrite E. cbn [length].
+  destruct ((e + Z.of_nat (S (length w)) - 1 <? -4)%Z || (16 <=? e + Z.of_nat (S (length w)) - 1)%Z).
+  - eexists _, _. split; [reflexivity | exact Hc].
+  - destruct (0 <=? e)%Z.
+    + eexists _, _. split; [reflexivity | exact Hc].
+    + destruct (Z.to_nat (- e) <? S (length w))%nat eqn:Ek.
+      * apply Nat.ltb_lt in Ek.
+        assert (exists j, (S (length w) - Z.to_nat (- e))%nat = S j) as [j Ej] by (exists (S (length w) - Z.to_nat (- e) - 1)%nat; lia).
+        rewrite Ej. cbn [firstn app]. eexists _, _. split; [reflexivity | exact Hc].
+      * eexists _, _. split; [reflexivity | reflexivity].
+Qed.
+
+Lemma emit_float_head m e : exists c w, emit_float m e = c :: w /\ is_digit c = true.
+Proof.
+  unfold emit_float. destruct (m =? 0); [exists 48, [46; 48]; split; reflexivity|].
+  destruct (norm_dec m e) as [m' e']. apply emit_float_norm_head.
+Qed.
+
+(* the literal a folded negation hands to translate_literal: minus sign, then the number -- two tokens, never a comment *)
+Theorem emit_float_neg_tokens d m e : sql_lex d (45 :: emit_float m e) = [TPunct 45; TNumber (emit_float m e)].
+Proof.
+  destruct (emit_float_head m e) as (c & w & E & Hc). pose proof (emit_float_one_token d m e) as T.
+  rewrite E in *. unfold sql_lex in *. rewrite (run_minus_digit d c w Hc). rewrite T. reflexivity.
+Qed.
